@@ -341,6 +341,58 @@ fn invalid_static_from_peer(ctx: &Ctx) {
     ctx.count("invalid_static_cases", jobs.len() as u64);
 }
 
+
+/// Late genuine packets: a stateless sender's messages under nonces H and H - age; the stateful receiver reads H,
+/// is pointed back to H - age and reads that one. snow accepts it (no replay window); an implementation that
+/// refuses it for its age must not have left the plaintext behind.
+fn late_packets(ctx: &Ctx) {
+    use crate::exec::payload_bytes;
+    let mut jobs = vec![];
+    for (c, b) in cipher_backends() {
+        for age in [1u64, 2, 31, 32, 33, 63, 64, 65, 127, 128, 129, 1000, 65536] {
+            jobs.push((c, b, age));
+        }
+    }
+    jobs.par_iter().for_each(|(c, b, age)| {
+        let p = proto("NN", &[], DhAlg::X25519, *c, HashAlg::Sha256);
+        let mut cfg = Config::honest(&p, 0);
+        cfg.backend = [*b, *b];
+        cfg.crypto_oracle = false;
+        let h = 70_000u64;
+        let mut ops = sess::handshake_ops(&p, &[0, 0, 0, 0]);
+        ops.extend(sess::convert_ops(Mode::ST));
+        ops.push(Op::SWrite { side: Side::I, nonce: h, plen: 20, cap: Cap::Roomy });
+        ops.push(Op::SetRecvNonce { side: Side::R, n: h });
+        ops.push(Op::TRead { side: Side::R, msg: Msg::Last(Side::I), cap: Cap::Roomy });
+        ops.push(Op::SWrite { side: Side::I, nonce: h - age, plen: 24, cap: Cap::Roomy });
+        ops.push(Op::SetRecvNonce { side: Side::R, n: h - age });
+        ops.push(Op::TRead { side: Side::R, msg: Msg::Last(Side::I), cap: Cap::Exact(24 + (*age as usize % 17)) });
+        let probe = ops.len() - 1;
+        let mut e = Exec::new(&cfg);
+        e.keep_err_buf = true;
+        for op in &ops {
+            e.step(op);
+        }
+        ctx.add(&ctx.evaluations, 1);
+        ctx.add(&ctx.transitions, ops.len() as u64);
+        ctx.add(&ctx.traces, 1);
+        let st = &e.steps[probe];
+        if st.real.is_ok() {
+            ctx.count("late genuine packet accepted", 1);
+            return;
+        }
+        ctx.add(&ctx.nontrivial, 1);
+        ctx.count("late genuine packet rejected", 1);
+        let pt = payload_bytes(24, 0x80 ^ ((h - age) as u8));
+        if let Some(buf) = &st.err_buf {
+            if let Some(off) = leaks(buf, &pt) {
+                ctx.violation("the output buffer of a rejected TRead contains plaintext of the rejected message (a genuine packet that arrived late)", format!("{} {:?}: age {age}, plaintext window at offset {off}", cfg.name, b), json!({"kind": "exec", "config": cfg, "ops": ops, "probe": probe}));
+            }
+        }
+    });
+    ctx.count("late_packet_cases", jobs.len() as u64);
+}
+
 pub fn run(tier: Tier) -> i32 {
     let ctx = Ctx::new("C19", tier, "fault_enumeration");
     // the whole thorough alphabet costs a few seconds: both tiers run it
@@ -458,6 +510,7 @@ pub fn run(tier: Tier) -> i32 {
     ctx.count("encrypted_static_cases", scases.len() as u64);
     other_rejections(&ctx);
     invalid_static_from_peer(&ctx);
+    late_packets(&ctx);
     for (c, b) in cipher_backends() {
         direct(&ctx, c, b == Backend::Ring);
     }
